@@ -31,6 +31,22 @@ def generate_checking_code(typ):
         return CodeGen("isinstance({arg}, {this})", this=typ)
 
 
+def generate_guarded_checking_code(typ):
+    """Checking code for a member of a union or intersection.
+
+    The dispatcher only guarantees that the argument matches the bound of
+    the whole combination, so each dependent member must verify its own
+    bound before running its check.
+    """
+    cg = generate_checking_code(typ)
+    bound = getattr(typ, "bound", None)
+    if isinstance(typ, DependentType) and bound is not None:
+        guard = CodeGen("isinstance({arg}, {bound})", bound=bound)
+        return combine("({} and {})", [guard, cg])
+    else:
+        return combine("({})", [cg])
+
+
 class CodeGen:
     def __init__(self, template, substitutions={}, **substitutions_kw):
         self.template = template
